@@ -24,6 +24,9 @@ pub struct Case {
     pub chain: ChainSpec,
     pub layout: LayoutSpec,
     pub second: Callback,
+    /// run without `-c` (Bitcoin chains only: it is the default coin)
+    #[serde(default)]
+    pub default_coin: bool,
 }
 
 pub fn strategy(tier: Tier, big_holes: bool) -> BS<Case> {
@@ -52,7 +55,7 @@ pub fn strategy(tier: Tier, big_holes: bool) -> BS<Case> {
                 }
             }
             layout.xor = Some(key);
-            Case { chain, layout, second }
+            Case { chain, layout, second, default_coin: false }
         })
         .boxed()
 }
@@ -91,6 +94,7 @@ pub fn check(c: &Case) -> Verdict {
         if base > 0 {
             o.start = Some(base);
         }
+        o.default_coin = c.default_coin;
         let p = infra!(wp.run(&o));
         let x = infra!(wx.run(&o));
         runs += 2;
@@ -146,13 +150,29 @@ fn run(eng: &Engine, a: &Args) {
     // ends at the watchdog = inconclusive); layouts without such holes fail fast and come first
     let (n1, n2) = if a.tier == Tier::Quick { (200, 100) } else { (2000, 1000) };
     let tier = a.tier;
+    // Bitcoin directories in the plainest layout (blk00000.dat starting with the first block), run without `-c`, under
+    // keys that turn the leading network magic - or the first size field - into another coin's magic / other plausible
+    // values: what the XOR-ed bytes happen to look like must not matter
+    let scripts: Vec<Vec<u8>> = (0..5usize).map(|i| { let mut s = vec![0x76, 0xa9, 0x14]; s.extend([0x30 + i as u8; 20]); s.extend([0x88, 0xac]); s }).collect();
+    let chain = vpmodel::spec::chain_from_scripts(vpmodel::chain::Coin::Bitcoin, &scripts, &[1200, 7], 1, 1, 0, 1_400_000_000);
+    let mut alias = Vec::new();
+    for other in vpmodel::chain::ALL_COINS.iter().filter(|c| **c != vpmodel::chain::Coin::Bitcoin) {
+        for keylen in [4usize, 8, 11] {
+            let mut key = (vpmodel::chain::Coin::Bitcoin.magic() ^ other.magic()).to_le_bytes().to_vec();
+            key.extend((0..keylen - 4).map(|k| 0x21 + 7 * k as u8));
+            let mut l = LayoutSpec::canonical();
+            l.xor = Some(key);
+            alias.push(Case { chain: chain.clone(), layout: l, second: Callback::Balances, default_coin: true });
+        }
+    }
+    eng.enumerate("magic-alias-keys", alias, check);
     eng.explore("xor-vs-plaintext", scaled(n1, a), move || strategy(tier, false), check);
     eng.explore("xor-vs-plaintext-4GiB", scaled(n2, a), move || strategy(tier, true), check);
 }
 
 fn replay(part: &str, case: serde_json::Value) -> Option<Verdict> {
     match part {
-        "xor-vs-plaintext" | "xor-vs-plaintext-4GiB" => Some(check(&serde_json::from_value(case).ok()?)),
+        "xor-vs-plaintext" | "xor-vs-plaintext-4GiB" | "magic-alias-keys" => Some(check(&serde_json::from_value(case).ok()?)),
         _ => None,
     }
 }
